@@ -275,8 +275,18 @@ func VerifC10MergeOrder() {
 // goroutine per operation (as the job worker does), then CloseStates with some worker size:
 // the states handed out with their (index, total) equal the sequential fold.
 func VerifC10StatesMerger() {
+	verifC10StatesMerger(verifrt.Bound("smops", 2, 2), verifrt.Bound("smmenu", 5, 6))
+}
+
+// VerifC10StatesMergerPreempted: the same with a forced preemption at any scheduling point, over
+// the operations that change the same state key (the two joins; thorough: joins, disjoin, expel).
+func VerifC10StatesMergerPreempted() {
+	verifC10StatesMerger(2, verifrt.Bound("smpmenu", 2, 4))
+}
+
+func verifC10StatesMerger(nops, menu int) {
 	w := verifC10NewWorld()
-	ops := verifC10ChooseOps(w, verifrt.Bound("smops", 2, 2), verifrt.Bound("smmenu", 5, 6))
+	ops := verifC10ChooseOps(w, nops, menu)
 	results := verifC10PreAndProcess(w, ops)
 	if len(results) < 2 {
 		return
